@@ -24,6 +24,8 @@ type streamCase struct {
 	Streams [][][]int  `json:"streams"`
 	Steps   []connStep `json:"steps"`
 	Burst   int        `json:"burst"` // > 0: no schedule, every connection sends its whole stream at once, Burst rounds
+	// Defaults: the server keeps its default error callback (OnErrorFunc unset)
+	Defaults bool `json:"defaults"`
 }
 
 type connStep struct {
@@ -216,8 +218,12 @@ func runStreamE2E(c *streamCase) []Ev {
 	taps := make(chan *tapAssembler, 4)
 	first := true
 	var fmu sync.Mutex
+	onErr := func(err error) {}
+	if c.Defaults {
+		onErr = nil // the library's default: log the error
+	}
 	srv := &server.Server{WriteTimeout: 2 * time.Second, ReadTimeout: 2 * time.Millisecond,
-		OnErrorFunc: func(err error) {},
+		OnErrorFunc: onErr,
 		AssemblerCreatorFunc: func(h server.ModbusHandler) server.PacketAssembler {
 			fmu.Lock()
 			defer fmu.Unlock()
